@@ -9,7 +9,16 @@ optimum of the LATENCY run, min(energy*latency) over the front == optimum of the
 (relative 1e-5, both directions; "no mapping" must agree too).  Pure differential between
 mapper runs - the absolute optimum is C01's job.
 
-Mutation self-test: see the end of this docstring.
+Mutation self-test (scratch copies /tmp/af-mut-*):
+  1. join_pmappings.py _apply_edp_columns `energy * latency` -> `energy + latency`: CAUGHT by the whole
+     quick tier (8+ violations: edp-column-not-product/* on every run and minEDP-front-*-than-EDP-run
+     on the specs with an energy/latency trade-off, e.g. MM1-422/tight-thr).
+  2. metrics.py includes_latency forgets ENERGY_DELAY_PRODUCT: CAUGHT (replay of MM1-422/tight-thr and
+     MV2-222/mid-thr minEDP): the EDP run raises KeyError 'Total<SEP>latency' while the E|L run
+     succeeds -> metric-sets-disagree-on-feasibility/minEDP.
+  3. make_tile_shapes.py _clean_energy_columns drops the leak energy unless Metrics.ENERGY is set
+     (EDP searches on dynamic energy only): MISSED on MM1-224/mid-leak (leak 0.25 x latency is too
+     small to move the EDP optimum of the bound).
 """
 
 from __future__ import annotations
